@@ -172,8 +172,12 @@ def gen_graph_ops(rng, nv=None, nl=None, odd=0.25, universes=True):
         ops.append(["NL", None, None])           # shifts id parity
     vids = []
     nid = len(ops)
+    shared_uid = rng.random() < 0.3
     for _ in range(nv):
-        ops.append(["NV", rng.random() < 0.2, [], []])
+        op = ["NV", rng.random() < 0.2, [], []]
+        if shared_uid and rng.random() < 0.6:
+            op.append(7000 + rng.randrange(2))      # two or more vertices end up with the same caller-supplied uid
+        ops.append(op)
         vids.append(nid)
         nid += 1
     lids = []
